@@ -315,7 +315,8 @@ func runC02(c *Ctx) {
 			c.Check("C02.G5", "apply-"+typ+":patches-source", len(a) == 2 && c.Path(a[1], nil) == P+"#0.Delta.Patches", cl.Pos(), "ApplyPatches receives "+c.Path(a[len(a)-1], nil)+" (expected the hash-checked op.Delta.Patches)")
 		}
 	}
-	c.Min("C02.G5", 1+4+3)
+	c.isValidModelMultihashContract("C02.G5")
+	c.Min("C02.G5", 1+4+3+4)
 
 	// ---- G6: deactivate suffix equality (applier and parser)
 	if f := af["deactivate"]; f != nil {
